@@ -24,8 +24,8 @@ TIMEOUTS = [None, -1, 0, 1, 2, 3, 4, 5]
 
 
 def bounds(tier):
-    return "8 intervals x 8 timeouts; silent after j=0..3 answered pings; 6 latency patterns; %d traffic patterns; preemption bound %d + all tie orders" % (
-        (3, 1) if tier == "quick" else (6, 2))
+    return "8 intervals x 8 timeouts; silent after j=0..3 answered pings; 6 latency patterns; %d traffic patterns (incl. a peer that keeps sending data); cost bound %d (preemption 2, tie 1)" % (
+        (5, 2) if tier == "quick" else (7, 4))
 
 
 def valid(interval, timeout):
@@ -48,7 +48,7 @@ def tasks(tier, seed):
             if iv == 0:
                 ts.append({"kind": "nopings", "iv": iv, "to": to, "name": "nopings/%s" % to})
                 continue
-            traffics = ["none", "at-ping", "at-deadline", "burst"] if tier == "quick" else ["none", "at-ping", "at-deadline", "before-ping", "two", "burst"]
+            traffics = ["none", "at-ping", "at-deadline", "burst", "chatty"] if tier == "quick" else ["none", "at-ping", "at-deadline", "before-ping", "two", "burst", "chatty"]
             payloads = ["k"] if tier == "quick" else ["k", ""]
             bound = 2 if tier == "quick" else 4
             for payload in payloads:
@@ -95,6 +95,11 @@ def traffic_script(kind, iv, to, silent=False):
         return [(first - 0.25, "data", msg), (first + 0.25, "data", msg)]
     if kind == "two":
         return [(first + (to or 1) - 0.25, "data", msg), (first + 2 * (to or 1), "data", msg)]
+    if kind == "chatty":
+        # the peer keeps sending data with gaps shorter than the timeout (whether or not it still answers pings)
+        gap = max(0.25, (to or 1) / 2.0)
+        n = int((4 * iv + 6 * (to or 1)) / gap) + 2
+        return [(first - gap + k * gap, "data", msg) for k in range(n)]
     if kind == "burst":
         if silent:
             # a peer that "stops answering" sends no pongs at all from then on (an unsolicited pong is indistinguishable from an answer)
